@@ -119,12 +119,29 @@ func (rn *Renderer) renderNode(tbl *table.Table, n *Node) {
 }
 
 func compareAccount(k1, k2 amounts.Key) compare.Order {
-	return account.Compare(k1.Other, k2.Other)
+	if c := account.Compare(k1.Other, k2.Other); c != compare.Equal {
+		return c
+	}
+	return compareRest(k1, k2)
 }
 
 func compareAccountAndCommodities(k1, k2 amounts.Key) compare.Order {
 	if c := account.Compare(k1.Other, k2.Other); c != compare.Equal {
 		return c
 	}
-	return commodity.Compare(k1.Commodity, k2.Commodity)
+	if c := commodity.Compare(k1.Commodity, k2.Commodity); c != compare.Equal {
+		return c
+	}
+	return compareRest(k1, k2)
+}
+
+// compareRest breaks the remaining ties (source account, description), so
+// that the order of the rows does not depend on map iteration order.
+func compareRest(k1, k2 amounts.Key) compare.Order {
+	if k1.Account != nil && k2.Account != nil {
+		if c := account.Compare(k1.Account, k2.Account); c != compare.Equal {
+			return c
+		}
+	}
+	return compare.Ordered(k1.Description, k2.Description)
 }
